@@ -32,7 +32,7 @@ if [ "$REPO" != "/repo" ]; then
 else
   cp /repo/go.sum go.sum 2>/dev/null
 fi
-LOCK=build/.build.lock
+LOCK=$OVDIR/.build.lock
 (
   flock 9
   if [ ! -x build/bin/mcrewrite ] || [ cmd/mcrewrite/main.go -nt build/bin/mcrewrite ]; then
